@@ -558,6 +558,12 @@ class Client(ClientLike):
             header.remaining_bytes = 0
             header.reserved = 0
 
+            # Stamp the definition hash of the signal when it is known (as send_message does)
+            try:
+                header.version = get_msg_cls(signal_type).type_hash
+            except (UnknownMessageType, AttributeError):
+                pass
+
             self._sendall(header)  # type: ignore
 
             self._msg_count += 1
